@@ -5,6 +5,7 @@
 //! decoder's own tables mirror it; no decoder code is called.
 pub mod container;
 pub mod entropy;
+pub mod vardct;
 
 use crate::bits::{BitWriter, pack_signed};
 use crate::rng::Rng;
@@ -189,6 +190,9 @@ pub struct FrameSpec {
     pub toc_permuted: bool,
     pub toc_perm_seed: u64,
     pub modular: ModularSpec,
+    /// `Some`: the colour channels are VarDCT-coded (extra channels stay Modular)
+    #[serde(default)]
+    pub vardct: Option<vardct::VarDctSpec>,
 }
 
 #[derive(Clone, Debug, Serialize, Deserialize)]
@@ -218,6 +222,9 @@ pub struct Program {
     /// preview frame (coded right after the image header; the decoder skips it)
     #[serde(default)]
     pub preview: Option<Box<FrameSpec>>,
+    /// XYB-encoded image (required for the VarDCT frames this generator writes)
+    #[serde(default)]
+    pub xyb: bool,
 }
 
 /// Structural byte offsets of an encoded codestream (relative to codestream start).
@@ -299,8 +306,10 @@ impl Program {
     pub fn base_channels(&self, f: &FrameSpec) -> Vec<Chan> {
         let (cw, ch) = self.color_sample_dims(f);
         let mut v = Vec::new();
-        for _ in 0..self.num_color() {
-            v.push(Chan { w: cw, h: ch, hshift: 0, vshift: 0 });
+        if f.vardct.is_none() {
+            for _ in 0..self.num_color() {
+                v.push(Chan { w: cw, h: ch, hshift: 0, vshift: 0 });
+            }
         }
         let cshift = f.upsampling.trailing_zeros();
         for (ec, &up) in self.extra.iter().zip(&f.ec_upsampling) {
@@ -684,9 +693,9 @@ impl Program {
                 _ => {}
             }
         }
-        w.bool(false); // xyb_encoded
+        w.bool(self.xyb); // xyb_encoded
         // colour encoding
-        if self.gray {
+        if self.gray && !self.xyb {
             w.bool(false); // all_default
             w.bool(false); // want_icc
             w.enum_(1); // Grey
@@ -705,7 +714,9 @@ impl Program {
             w.bool(true); // default_m
         } else {
             w.bool(false);
-            // not xyb: no opsin matrix
+            if self.xyb {
+                w.bool(true); // OpsinInverseMatrix: all_default
+            }
             w.w(self.cw_mask as u64, 3);
             let mut r = Rng::new(self.cw_seed);
             for (bit, n) in [(1u32, 15usize), (2, 55), (4, 210)] {
@@ -732,18 +743,30 @@ impl Program {
             },
             2,
         );
-        w.w(1, 1); // Modular
+        w.w(f.vardct.is_none() as u64, 1); // 1 = Modular, 0 = VarDCT
         let mut flags = 0u64;
         if f.noise.is_some() {
             flags |= 1;
         }
+        if f.vardct.as_ref().map(|v| v.skip_adaptive_lf_smoothing).unwrap_or(false) {
+            flags |= 0x80;
+        }
         w.u64(flags);
-        w.bool(false); // do_ycbcr
+        if !self.xyb {
+            w.bool(false); // do_ycbcr
+        }
         w.u32(U32_1248, f.upsampling, None);
         for &u in &f.ec_upsampling {
             w.u32(U32_1248, u, None);
         }
-        w.w(f.group_size_shift as u64, 2);
+        if let Some(vd) = &f.vardct {
+            if self.xyb {
+                w.w(vd.x_qm_scale as u64, 3);
+                w.w(vd.b_qm_scale as u64, 3);
+            }
+        } else {
+            w.w(f.group_size_shift as u64, 2);
+        }
         if f.kind != FrameKind::ReferenceOnly {
             let p = &f.passes;
             w.u32([(1, 0), (2, 0), (3, 0), (4, 3)], p.num_passes, None);
@@ -814,7 +837,9 @@ impl Program {
                 None => w.w(0, 2),
                 Some(e) => {
                     w.w(e.iters as u64, 2);
-                    // Modular: no sharp_custom bit
+                    if f.vardct.is_some() {
+                        w.bool(false); // sharp_custom (VarDCT only)
+                    }
                     w.bool(e.weight_custom.is_some());
                     if let Some(c) = &e.weight_custom {
                         for x in c {
@@ -824,11 +849,16 @@ impl Program {
                     }
                     w.bool(e.sigma_custom.is_some());
                     if let Some(c) = &e.sigma_custom {
+                        if f.vardct.is_some() {
+                            w.f16(0.46); // quant_mul (VarDCT only)
+                        }
                         for x in c {
                             w.f16(*x);
                         }
                     }
-                    w.f16(e.sigma_for_modular);
+                    if f.vardct.is_none() {
+                        w.f16(e.sigma_for_modular);
+                    }
                 }
             }
             w.u64(0); // rf extensions
@@ -965,48 +995,90 @@ impl Program {
             }
         }
         lf_global.bool(true); // lf_dequant all_default
+        let vd = f.vardct.as_ref();
+        let mut vrng = Rng::new(vd.map(|v| v.seed).unwrap_or(0));
+        if let Some(vd) = vd {
+            self.vardct_lf_global(&mut lf_global, vd);
+        }
         lf_global.bool(m.global.is_some());
         if let Some(g) = &m.global {
             self.write_tree(&mut lf_global, g);
         }
-        let g_use_global = m.gmodular_use_global && m.global.is_some();
-        self.write_modular_header(&mut lf_global, g_use_global, m, &m.transforms);
-        let gma = if g_use_global {
-            m.global.as_ref().unwrap()
-        } else {
-            self.write_tree(&mut lf_global, &m.local);
-            &m.local
-        };
-        self.write_samples(&mut lf_global, m, gma, &lay.global, &mut rng, 0);
+        // the GlobalModular image has no channels at all for a VarDCT frame without extra
+        // channels: then not even its header is coded
+        if !base.is_empty() {
+            let g_use_global = m.gmodular_use_global && m.global.is_some();
+            self.write_modular_header(&mut lf_global, g_use_global, m, &m.transforms);
+            let gma = if g_use_global {
+                m.global.as_ref().unwrap()
+            } else {
+                self.write_tree(&mut lf_global, &m.local);
+                &m.local
+            };
+            self.write_samples(&mut lf_global, m, gma, &lay.global, &mut rng, 0);
+        }
+
+        let (cw, chh) = self.color_sample_dims(f);
+        let groups_per_row = cw.div_ceil(128 << f.group_size_shift);
+        // per LF group: (LfCoeff bits, modular bits, HfMetadata bits); varblocks keyed by group
+        let mut lf_sections: Vec<BitWriter> = Vec::new();
+        let mut group_blocks: Vec<Vec<vardct::Block>> = vec![Vec::new(); lay.num_groups as usize];
+        for (i, g) in lay.lf_groups.iter().enumerate() {
+            let mut w = BitWriter::new();
+            let geom = vd.map(|_| vardct::lf_group_geom(cw, chh, i as u32));
+            if let (Some(vd), Some(geom)) = (vd, &geom) {
+                self.vardct_lf_coeff(&mut w, &mut vrng, vd, geom);
+            }
+            if !g.is_empty() {
+                self.write_subimage(&mut w, f, g, &mut rng, 100 + i as u64);
+            }
+            if let (Some(vd), Some(geom)) = (vd, &geom) {
+                let blocks = self.vardct_hf_metadata(&mut w, &mut vrng, vd, geom);
+                for b in blocks {
+                    let gcol = geom.col * 8 + b.x / 32;
+                    let grow = geom.row * 8 + b.y / 32;
+                    group_blocks[(grow * groups_per_row + gcol) as usize].push(b);
+                }
+            }
+            lf_sections.push(w);
+        }
+        let mut hf_global = BitWriter::new();
+        let coeff_coder = vd.map(|vd| self.vardct_hf_global(&mut hf_global, &mut vrng, vd, lay.num_groups, f.passes.num_passes));
+        let mut pass_sections: Vec<Vec<BitWriter>> = Vec::new();
+        for (p, groups) in lay.pass_groups.iter().enumerate() {
+            let mut v = Vec::new();
+            for (i, g) in groups.iter().enumerate() {
+                let mut w = BitWriter::new();
+                if let (Some(vd), Some(coder)) = (vd, &coeff_coder) {
+                    let mut bl: Vec<&vardct::Block> = group_blocks[i].iter().collect();
+                    bl.sort_by_key(|b| (b.y, b.x));
+                    self.vardct_pass_group(&mut w, &mut vrng, vd, coder, &bl);
+                }
+                if !g.is_empty() {
+                    self.write_subimage(&mut w, f, g, &mut rng, 10_000 + (p as u64) * 100_000 + i as u64);
+                }
+                v.push(w);
+            }
+            pass_sections.push(v);
+        }
 
         let single = lay.num_groups == 1 && f.passes.num_passes == 1;
         let mut sections: Vec<Vec<u8>> = Vec::new();
         if single {
+            // one section: the parts follow each other without byte alignment
             let mut w = lf_global;
-            if !lay.lf_groups[0].is_empty() {
-                self.write_subimage(&mut w, f, &lay.lf_groups[0], &mut rng, 1);
-            }
-            // HfGlobal: nothing for Modular
-            if !lay.pass_groups[0][0].is_empty() {
-                self.write_subimage(&mut w, f, &lay.pass_groups[0][0], &mut rng, 2);
-            }
+            w.append(&lf_sections[0]);
+            w.append(&hf_global);
+            w.append(&pass_sections[0][0]);
             sections.push(w.finish());
         } else {
             sections.push(lf_global.finish());
-            for (i, g) in lay.lf_groups.iter().enumerate() {
-                let mut w = BitWriter::new();
-                if !g.is_empty() {
-                    self.write_subimage(&mut w, f, g, &mut rng, 100 + i as u64);
-                }
+            for w in lf_sections {
                 sections.push(w.finish());
             }
-            sections.push(Vec::new()); // HfGlobal
-            for (p, groups) in lay.pass_groups.iter().enumerate() {
-                for (i, g) in groups.iter().enumerate() {
-                    let mut w = BitWriter::new();
-                    if !g.is_empty() {
-                        self.write_subimage(&mut w, f, g, &mut rng, 10_000 + (p as u64) * 100_000 + i as u64);
-                    }
+            sections.push(hf_global.finish());
+            for v in pass_sections {
+                for w in v {
                     sections.push(w.finish());
                 }
             }
